@@ -110,3 +110,29 @@ package iscp
 //@   loop 1 invariant forall(a, uint32, imp(old(has(d.dataIDAliases, a)), has(d.dataIDAliases, a) && d.dataIDAliases[a] == old(d.dataIDAliases[a])))
 //@   loop 1 invariant forall(a, uint32, imp(has(res, a), a > old(d.dataIDAliasGenerator.currentValue) && has(d.dataIDAliases, a) && d.dataIDAliases[a] == res[a]))
 //@   loop 1 invariant forall(a, uint32, imp(has(d.dataIDAliases, a) && !old(has(d.dataIDAliases, a)), has(res, a)))
+
+// ---------------------------------------------------------------- C03: alias resolution
+//@ define upAliasForm(x): typeis(x, message.UpstreamAlias)
+//@ define upFullForm(x): typeis(x, *message.UpstreamInfo) && unbox(x, *message.UpstreamInfo) != nil
+//@ define idAliasForm(x): typeis(x, message.DataIDAlias)
+//@ define idFullForm(x): typeis(x, *message.DataID) && unbox(x, *message.DataID) != nil
+//@ define wfGroups(gs): forall(i, int, imp(0 <= i && i < len(gs), gs[i] != nil && (idAliasForm(gs[i].DataIDOrAlias) || idFullForm(gs[i].DataIDOrAlias))))
+//@ define knownID(d, x): imp(idAliasForm(x), has(d.dataIDAliases, unbox(x, message.DataIDAlias)))
+
+//@ func (*Downstream).wireToDownstreamChunk
+//@   props C03
+//@   nopanic
+//@   requires dps != nil && dps.StreamChunk != nil
+//@   requires upAliasForm(dps.UpstreamOrAlias) || upFullForm(dps.UpstreamOrAlias)     // decoder output invariant (C12)
+//@   requires wfGroups(dps.StreamChunk.DataPointGroups)
+//@   requires forall(a, uint32, imp(has(d.upstreamInfos, a), d.upstreamInfos[a] != nil))
+//@   requires forall(a, uint32, imp(has(d.dataIDAliases, a), d.dataIDAliases[a] != nil))
+//@   modifies nothing
+//@   ensures (result1 == nil) == (result0 != nil)
+//@   ensures imp(upAliasForm(dps.UpstreamOrAlias) && !has(d.upstreamInfos, unbox(dps.UpstreamOrAlias, message.UpstreamAlias)), result1 != nil)
+//@   ensures imp(exists(i, int, 0 <= i && i < len(dps.StreamChunk.DataPointGroups) && !knownID(d, dps.StreamChunk.DataPointGroups[i].DataIDOrAlias)), result1 != nil)
+//@   ensures imp(result1 == nil, result0.SequenceNumber == dps.StreamChunk.SequenceNumber && result0.UpstreamInfo != nil && len(result0.DataPointGroups) == len(dps.StreamChunk.DataPointGroups))
+//@   ensures imp(result1 == nil && upAliasForm(dps.UpstreamOrAlias), *result0.UpstreamInfo == *d.upstreamInfos[unbox(dps.UpstreamOrAlias, message.UpstreamAlias)])
+//@   ensures imp(result1 == nil && upFullForm(dps.UpstreamOrAlias), *result0.UpstreamInfo == *unbox(dps.UpstreamOrAlias, *message.UpstreamInfo))
+//@   loop 1 invariant fresh(dpgs) && len(dpgs) == rangeindex + 1
+//@   loop 1 invariant forall(i, int, imp(0 <= i && i <= rangeindex, knownID(d, dps.StreamChunk.DataPointGroups[i].DataIDOrAlias)))
